@@ -1,0 +1,18 @@
+//go:build verif
+
+// Contracts for package aead, read by /verif/gocv (comment-only; no code).
+package aead
+
+// constructor of the underlying cipher: may fail (bad key length); otherwise a usable AEAD
+//@ funcspec aeadCtor
+//@   names key
+//@   pure
+//@   ensures err == nil ==> result != nil
+
+// ---- C07: Decrypt never panics, whatever the input length ----
+
+//@ func (cryptoFunc).Decrypt
+//@   facet C07
+//@   safety C07
+//@   param c aeadCtor
+//@   requires c != nil
